@@ -81,7 +81,7 @@ std::string run_life(AsyncPipe &pipe, Life &life, int nprod, int life_no, CaseIn
 
   // ---- run
   std::mutex out_mu; std::string out; std::vector<size_t> block_sizes;
-  std::atomic<int> in_cb{0}; std::atomic<bool> overlap{false};
+  std::atomic<int> in_cb{0}; std::atomic<bool> overlap{false}, held_lock_over_interval{false};
   {
     // the sink callback may be installed before or after initialize(): the API allows both orders
     if (!life.cb_first && !pipe.initialize(cfg)) return "initialize() refused a valid configuration";
@@ -103,6 +103,7 @@ std::string run_life(AsyncPipe &pipe, Life &life, int nprod, int life_no, CaseIn
           if (st.kind == 0) { fill(b, st.sizes[0]); pipe.append(b.data(), b.size()); continue; }
           pipe.appendLock();
           for (auto z : st.sizes) { fill(b, z); pipe.appendLockless(b.data(), b.size()); }
+          if (st.pause_us) { held_lock_over_interval = true; spin_us(st.pause_us); }   // the producer keeps the append lock for a while (a timed flush meets a held lock)
           pipe.appendUnlock();
         }
       });
@@ -147,6 +148,7 @@ std::string run_life(AsyncPipe &pipe, Life &life, int nprod, int life_no, CaseIn
   info.cls_if(partial_block, "timed_flush_of_partial_buffer");
   info.cls_if(cfg.interval == 3600000, "interval_1h");
   info.cls_if(sink_us > 0, "slow_sink");
+  info.cls_if(held_lock_over_interval.load(), "append_lock_held_across_flush_intervals");
   info.cls_if(life_no > 0 && total > 0, "data_in_a_later_life_of_the_same_pipe_object");
   if (nprod >= 2 && total > 0 && (big_append || partial_block || sink_us > 0)) nontrivial = true;
   return "";
@@ -174,6 +176,7 @@ std::string run(const Scenario &s, CaseInfo &info) {
       case APP: { Step st; st.kind = 0; st.pause_us = 0; st.sizes.push_back(pick_size(op.in(1, 0, 7), op.in(2, 0, 100000), lf.cfg.buff_size)); lf.script[op.in(0, 0, kMaxProd - 1)].push_back(st); break; }
       case GROUP: { Step st; st.kind = 1; st.pause_us = 0; int n = (int)op.in(1, 1, 3);
         for (int i = 0; i < n; ++i) st.sizes.push_back(pick_size(op.in(2 + i, 0, 7), op.in(5, 0, 100000) + i, lf.cfg.buff_size));
+        if (op.in(6, 0, 3) == 3 && lf.cfg.interval <= 50) st.pause_us = (unsigned)(lf.cfg.interval * 2500);   // hold the lock for 2.5 flush intervals after the last lockless append
         lf.script[op.in(0, 0, kMaxProd - 1)].push_back(st); break; }
       case PAUSE: { Step st; st.kind = 2; st.pause_us = (unsigned)op.in(1, 0, 12000); lf.script[op.in(0, 0, kMaxProd - 1)].push_back(st); break; }
       default: break;
@@ -199,7 +202,7 @@ std::string run(const Scenario &s, CaseInfo &info) {
 SubDef def = [] {
   SubDef d; d.name = "pipe";
   d.op_names = {"cfg", "sched", "app", "group", "pause", "life"};
-  d.op_arity = {9, 3, 3, 6, 2, 8};
+  d.op_arity = {9, 3, 3, 7, 2, 8};
   d.nt_rule = ">= 2 producer threads with data, and (an append larger than 2 buffers, or a timed flush of a partial buffer observed as a short block before the end, or a slow sink callback giving back-pressure)";
   d.run = run;
 #ifndef VERIF_ENGINE_FUZZ
@@ -209,7 +212,7 @@ SubDef def = [] {
     auto k = range(0, 100000);
     auto opg = rc::gen::weightedOneOf<Op>({
       {8, mkop(APP, {prod, mode, k})},
-      {3, mkop(GROUP, {prod, range(1, 3), mode, mode, mode, k})},
+      {3, mkop(GROUP, {prod, range(1, 3), mode, mode, mode, k, range(0, 3)})},
       {4, mkop(PAUSE, {prod, rc::gen::weightedOneOf<int64_t>({{2, range(0, 50)}, {2, range(1000, 3000)}, {1, range(5000, 12000)}})})},
       {1, mkop(LIFE, {range(0, 5), range(1, 3), range(0, 3), oneOfValues({0, 0, 0, 1, 1, 2, 3, 3}), range(0, 0), range(0, 3), range(0, 300), range(0, 1)})},
     });
